@@ -70,12 +70,13 @@ func c07Exec(c *core.Ctx, cs c07Case) {
 		bounds = append(bounds, text.Len())
 		rf := ref{}
 		if u.Kind == "command" {
-			cmds, com, err := parseAll("c07", u.Text)
-			if err != nil || len(cmds) == 0 || (u.Prog != nil && skel.Cmds(cmds, skel.Strict) != gen.Expect(u.Prog)) {
-				c.Skip("a unit is not accepted as expected on its own (C02's business)")
-				return
+			// reference: the generator's expected tree of the unit; its comments come from
+			// parsing the unit alone (comment texts are layout, not part of the derivation)
+			_, com, err := parseAll("c07", u.Text)
+			if err != nil {
+				com = nil
 			}
-			rf = ref{skel.Cmds(cmds, skel.Strict), commentTextsOf(com), true}
+			rf = ref{gen.Expect(u.Prog), commentTextsOf(com), true}
 		} else {
 			_, com, _ := parseAll("c07", u.Text)
 			rf = ref{"", commentTextsOf(com), true}
@@ -368,7 +369,7 @@ func init() {
 		Level:       "exploration",
 		Technique:   "runtime monitoring: conservation check on consumed input — successive ParseCommands calls on one offset-exposing RuneScanner; after every call the offset must be a unit boundary known to the generator and the result must equal the parse of that unit alone",
 		Rule:        "a case is a stream of 2-8 units (complete commands of the generator in random layouts: single-line, multi-line compound, with here-documents, trailing comments, line continuations; blank lines; comment-only lines; last unit with or without final newline) read by successive calls; every unit boundary is checked. Pinned exception: comment lines (and blank lines after them) may be covered by the call of the next command or yield an empty result on their own. distinct_nontrivial = distinct streams; counters boundary/<kind>-><next kind>.",
-		Assumptions: []string{"reference per unit = the same parser on the unit's text alone (metamorphic), itself confirmed by the generator's expectation"},
+		Assumptions: []string{"reference per unit = the generator's expected tree of that unit (comment texts from parsing the unit alone)"},
 		Gen:         c07Gen,
 		Replay:      func(c *core.Ctx, raw []byte) { core.ReplayOne(c, raw, c07Exec) },
 		Finish: func(m *core.Merged) string {
